@@ -60,6 +60,7 @@ std::string callerName() {
         else if (depth == 0) out += ch;
       }
       if (out.find("vh_case") != std::string::npos || out == "main") break;
+      if (out.find("IsCancelled") != std::string::npos) continue;  // not inlined in -O1 builds
       return out;
     }
   }
